@@ -815,6 +815,74 @@ def poisson_check():
     return n, bad
 
 
+def closed_form_draws():
+    """samplers whose draw is a closed-form function of the uniforms it takes
+    (inverse transform / sum of logarithms): exact comparison on every script
+    of extreme and ordinary uniforms, incl. the regime where a running product
+    underflows"""
+    from pydsol.core import distributions as D
+    Lattice = make_stream()
+    U = [5e-324, 2.0 ** -1000, 2.0 ** -53, 1e-9, 0.25, 0.5, 0.75,
+         1 - 2.0 ** -53]
+    bad = []
+    n = 0
+
+    def close(a, b):
+        return a == b or abs(a - b) <= 1e-12 * max(abs(a), abs(b))
+    for k in (1, 2, 3, 5, 9):
+        for scale in (2.0, 0.5):
+            # (uniforms chosen such that a running product either stays a
+            # normal number or underflows to exactly zero: a product that
+            # lands among the subnormals loses digits first; that regime has
+            # probability zero and is not demanded here)
+            for script in itertools.product(
+                    [2.0 ** -600] + U[2:], repeat=min(k, 3)):
+                script = tuple(script) + (0.5,) * (k - len(script))
+                st = Lattice()
+                st.script = script
+                d = D.DistErlang(st, scale, k)
+                n += 1
+                try:
+                    x = d.draw()
+                except Exception as ex:  # noqa
+                    bad.append(("closed-form-draw-raises",
+                                "Erlang(%s,%d)" % (scale, k), list(script),
+                                type(ex).__name__))
+                    continue
+                want = -scale * sum(math.log(u) for u in script)
+                if st.i != k or not close(x, want):
+                    bad.append(("draw-differs-from-its-closed-form",
+                                "Erlang(%s,%d)" % (scale, k), list(script), x,
+                                want))
+    one = [("Exponential(2)", lambda s: D.DistExponential(s, 2.0),
+            lambda u: -2.0 * math.log(u)),
+           ("Weibull(1.5,2)", lambda s: D.DistWeibull(s, 1.5, 2.0),
+            lambda u: 2.0 * (-math.log(u)) ** (1 / 1.5)),
+           ("Uniform(1,4)", lambda s: D.DistUniform(s, 1.0, 4.0),
+            lambda u: 1.0 + 3.0 * u),
+           ("Geometric(0.25)", lambda s: D.DistGeometric(s, 0.25),
+            lambda u: math.floor(math.log(u) / math.log1p(-0.25))),
+           ("Triangular(1,2,4)", lambda s: D.DistTriangular(s, 1.0, 2.0, 4.0),
+            lambda u: 1.0 + math.sqrt(3.0 * u) if u <= 1 / 3 else
+            4.0 - math.sqrt(6.0 * (1 - u)))]
+    for name, mk, f in one:
+        for u in U + [1 / 3, 0.1, 0.9]:
+            st = Lattice()
+            st.script = (u,)
+            n += 1
+            try:
+                x = mk(st).draw()
+            except Exception as ex:  # noqa
+                bad.append(("closed-form-draw-raises", name, [u],
+                            type(ex).__name__))
+                continue
+            want = f(u)
+            if st.i != 1 or not close(x, want):
+                bad.append(("draw-differs-from-its-closed-form", name, [u], x,
+                            want))
+    return n, bad[:30]
+
+
 def cdf_checks():
     np = np_()
     from scipy import stats
@@ -995,6 +1063,12 @@ def run(ctx):
     ev += ns
     ctx.part("sibling instances of one class in one process, 3 orders",
              families=len(fams) // 3, evaluations=ns)
+    n, bad = limited(closed_form_draws, "the closed-form part")
+    ev += n
+    for b in bad:
+        ctx.violation("C15:%s:%s" % (b[0], b[1]), "closed form: %s" % (b,),
+                      {"part": "closedform"})
+    ctx.part("closed-form samplers on extreme scripts", evaluations=n)
     n, bad = limited(cdf_checks, "the cdf part")
     ev += n
     for b in bad:
@@ -1040,6 +1114,8 @@ def replay(data):
     if part == "sibling":
         return sibling_worker((data["family"], data["order"]))["bad"][:3] \
             or None
+    if part == "closedform":
+        return closed_form_draws()[1][:3] or None
     if part == "largepmf":
         return large_parameter_pmf()[1][:3] or None
     if part == "poisson":
